@@ -93,7 +93,9 @@ def enumerate_cases(tier):
                 mask[rnd.randrange(n_out)] = 1
             yield {"kind": "converge", "pair": pair, "spec": _spec_from(rnd, pair["sde_type"], pair["noise_type"], fam, phi),
                    "t0": rnd.choice([0.0, 0.5]), "T": rnd.choice([0.5, 1.0]), "entropy": rnd.randrange(2 ** 31 - 2),
-                   "y0seed": rnd.randrange(2 ** 31), "wseed": rnd.randrange(2 ** 31), "n_out": n_out, "mask": mask}
+                   "y0seed": rnd.randrange(2 ** 31), "wseed": rnd.randrange(2 ** 31), "n_out": n_out, "mask": mask,
+                   # an adaptive backward solve as well: always for the reversible Heun pair, for a third of the others
+                   "adjoint_adaptive": pair["adjoint_method"] == "adjoint_reversible_heun" or (idx + seed) % 3 == 0}
 
 
 @st.composite
@@ -110,7 +112,7 @@ def _book_case(draw, tier):
     spec, combo = draw(solve.spec_and_combo(include_grad_free=False, all_levy=False))
     return {"kind": "bookkeeping", "spec": spec, "combo": combo, "entropy": draw(st.integers(0, 2 ** 31 - 2)),
             "mode": draw(st.sampled_from(["subset_params", "frozen_param", "y0_no_grad", "default_params",
-                                          "empty_params"]))}
+                                          "empty_params", "renamed_default_params"]))}
 
 
 @st.composite
@@ -123,7 +125,8 @@ def _converge_case(draw, tier):
             "t0": draw(st.sampled_from([0.0, 0.5, -1.0])), "T": draw(st.sampled_from([0.5, 1.0])),
             "entropy": draw(st.integers(0, 2 ** 31 - 2)), "y0seed": draw(st.integers(0, 2 ** 31 - 1)),
             "wseed": draw(st.integers(0, 2 ** 31 - 1)), "n_out": draw(st.sampled_from([1, 2, 4])),
-            "mask": draw(st.lists(st.sampled_from([1, 1, 0]), min_size=4, max_size=4))}
+            "mask": draw(st.lists(st.sampled_from([1, 1, 0]), min_size=4, max_size=4)),
+            "adjoint_adaptive": draw(st.sampled_from([False, False, True]))}
 
 
 def strategy(tier):
@@ -182,7 +185,24 @@ def _run_book(case):
     elif mode == "empty_params":
         kw["adjoint_params"] = ()
         asked = set()
-    ys = torchsde.sdeint_adjoint(sde, y0, ts, bm=bm, method=combo["method"], dt=0.125, **kw)
+    run_sde = sde
+    if mode == "renamed_default_params":
+        # drift and diffusion exposed under other names (`names=`), adjoint_params left at its default: every parameter of
+        # the user's module is still an adjoint parameter
+        class Renamed(torch.nn.Module):
+            def __init__(self, base):
+                super().__init__()
+                self.base = base
+                self.noise_type, self.sde_type = base.noise_type, base.sde_type
+
+            def drift_fn(self, t, y):
+                return self.base.f(t, y)
+
+            def diffusion_fn(self, t, y):
+                return self.base.g(t, y)
+        run_sde = Renamed(sde)
+        kw["names"] = {"drift": "drift_fn", "diffusion": "diffusion_fn"}
+    ys = torchsde.sdeint_adjoint(run_sde, y0, ts, bm=bm, method=combo["method"], dt=0.125, **kw)
     sig = {"mode": mode, "kind": "bookkeeping", "method": combo["method"]}
     if not ys.requires_grad:
         if mode == "y0_no_grad" and not asked:
@@ -265,12 +285,27 @@ def _run_converge(case):
         (w * ys[1:]).sum().backward()
         got = [y0.grad] + [p.grad if p.grad is not None else torch.zeros_like(p) for p in sde.parameters()]
         errs.append(float(torch.sqrt(((per_path(got) - true_pp) ** 2).sum(1).mean())))
+    # the same gradient with an ADAPTIVE backward solve (adjoint_adaptive=True) at the finest dt as initial step: the
+    # backward pass then takes trial steps (full, half, half) from one augmented state and may reject them
+    err_adapt = None
+    if case.get("adjoint_adaptive"):
+        import warnings
+        sde, y0 = fresh()
+        with warnings.catch_warnings():
+            warnings.simplefilter("ignore")
+            ys = torchsde.sdeint_adjoint(sde, y0, ts, bm=bm, method=pair["method"], adjoint_method=pair["adjoint_method"],
+                                         dt=T * 2.0 ** -ks[-1], adjoint_adaptive=True, adjoint_rtol=1e-3, adjoint_atol=1e-3)
+            (w * ys[1:]).sum().backward()
+        got = [y0.grad] + [p.grad if p.grad is not None else torch.zeros_like(p) for p in sde.parameters()]
+        err_adapt = float(torch.sqrt(((per_path(got) - true_pp) ** 2).sum(1).mean()))
     checks = 1
     labels = ["kind=converge", label, f"family={spec['family']}", f"outputs={n_out}"]
     if not all(mask):
         labels.append("loss_on_subset_of_outputs")
     if not mask[-1]:
         labels.append("loss_ignores_last_output")
+    if err_adapt is not None:
+        labels.append("adaptive_backward_solve")
     if not all(math.isfinite(e) for e in errs):
         return Result(nontrivial=True, checks=checks, labels=labels, fail=Fail(
             "non_finite_gradient", f"{label} on {spec['family']}: gradient errors {errs}", sig))
@@ -294,8 +329,16 @@ def _run_converge(case):
     elif not errs[-1] <= errs[0] / gain:
         fail = Fail("gradient_does_not_converge", f"{label} on {spec['family']}: finest error {errs[-1]:.3e} not below "
                                                   f"1/{gain} of the coarsest {errs[0]:.3e}", sig)
+    elif err_adapt is not None and not err_adapt <= 2.0 * errs[0]:
+        # calibrated on the unchanged tree: the adaptive backward error never exceeded 0.7 x the coarsest fixed-step error
+        fail = Fail("adaptive_backward_gradient", f"{label} on {spec['family']}: with adjoint_adaptive=True (rtol=atol=1e-3, "
+                                                  f"initial step T*2^-{ks[-1]}) the RMS gradient error is {err_adapt:.3e}, "
+                                                  f"more than twice the error {errs[0]:.3e} of the fixed-step adjoint at "
+                                                  f"dt=T/8 (true gradient RMS {gscale:.3e})", sig)
     # diffusion parameters must carry gradient for the case to count
     diff_names = {"reducible": "a", "linear_commuting": "beta", "scaled_additive": "C"}[spec["family"]]
     has = float(true[1 + names.index(diff_names)].abs().max()) > 0
     return Result(nontrivial=has, labels=labels, checks=checks + 1, fail=fail,
-                  metrics={"min:slope_minus_required": slope - need, "rel_finest_err": errs[-1] / max(gscale, 1e-300)})
+                  metrics={"min:slope_minus_required": slope - need, "rel_finest_err": errs[-1] / max(gscale, 1e-300),
+                           "adaptive_backward_err_over_coarsest_fixed_err": (err_adapt or 0.0) / max(errs[0], 1e-300),
+                           "adaptive_backward_rel_err": (err_adapt or 0.0) / max(gscale, 1e-300)})
